@@ -65,6 +65,8 @@ package sftp
 //@   requires int64(be32(b, 0)) <= int64(len(b) - 4)
 //@   ensures len(s) == int(be32(b, 0))
 //@   ensures rest == b[4+int(be32(b, 0)):]
+//@   content C06
+//@   content-ensures forall(j, 0 <= j && j < len(s) ==> s[j] == b[4 + j])
 //@   modifies nothing
 
 //@ func unmarshalStringSafe
@@ -72,6 +74,8 @@ package sftp
 //@   results s, rest, err
 //@   ensures err == nil ==> len(b) >= 4 && int64(be32(b, 0)) <= int64(len(b) - 4) && len(s) == int(be32(b, 0)) && rest == b[4+int(be32(b, 0)):]
 //@   ensures err != nil ==> err == errShortPacket && rest == nil && (len(b) < 4 || int64(be32(b, 0)) > int64(len(b) - 4))
+//@   content C06
+//@   content-ensures err == nil ==> forall(j, 0 <= j && j < len(s) ==> s[j] == b[4 + j])
 //@   modifies nothing
 
 //@ func unmarshalExtensionPair
@@ -82,11 +86,15 @@ package sftp
 //@   modifies nothing
 
 //@ func unmarshalIDString
-//@   property C08
+//@   property C08, C06
 //@   results err
 //@   requires id != nil && str != nil
 //@   ensures err == nil ==> len(b) >= 4 && *id == be32(b, 0)
 //@   ensures err == nil || err == errShortPacket
+//@   ensures err == nil ==> len(b) >= 8 && len(*str) == int(be32(b, 4))
+//@   ensures len(b) >= 8 && int64(be32(b, 4)) <= int64(len(b) - 8) ==> err == nil
+//@   content C06
+//@   content-ensures err == nil ==> forall(j, 0 <= j && j < len(*str) ==> (*str)[j] == b[8 + j])
 //@   modifies *id, *str
 
 //@ func unmarshalAttrs
@@ -177,7 +185,9 @@ package sftp
 
 //@ func marshal
 //@   maypanic
-//@   modifies bytes
+//@   ensures samearray(result, b) || fresh(result)
+//@   modifies bytesof b
+// (reflection-driven encoder, body not verified: assumed to append to b only)
 
 //@ func fileStatFromInfoOs
 //@   modifies *flags, *fileStat
@@ -1871,26 +1881,28 @@ package sftp
 //@   content
 //@   ensures len(result) == len(b) + 4
 //@   ensures be32(result, len(b)) == v
-//@   ensures forall(i, 0 <= i && i < len(b) ==> result[i] == old(b[i]))
-//@   modifies bytes
+//@   content-ensures forall(i, 0 <= i && i < len(b) ==> result[i] == old(b[i]))
+//@   ensures samearray(result, b) || fresh(result)
+//@   modifies bytesof b
 
 //@ func marshalUint64
 //@   property C06
 //@   content
 //@   ensures len(result) == len(b) + 8
 //@   ensures be64(result, len(b)) == v
-//@   ensures forall(i, 0 <= i && i < len(b) ==> result[i] == old(b[i]))
-//@   modifies bytes
+//@   content-ensures forall(i, 0 <= i && i < len(b) ==> result[i] == old(b[i]))
+//@   ensures samearray(result, b) || fresh(result)
+//@   modifies bytesof b
 
 //@ func marshalString
 //@   property C06
 //@   content
-//@   requires len(v) <= 0x7fffffff
 //@   ensures len(result) == len(b) + 4 + len(v)
 //@   ensures be32(result, len(b)) == uint32(len(v))
-//@   ensures forall(j, 0 <= j && j < len(v) ==> result[len(b) + 4 + j] == v[j])
-//@   ensures forall(i, 0 <= i && i < len(b) ==> result[i] == old(b[i]))
-//@   modifies bytes
+//@   content-ensures forall(j, 0 <= j && j < len(v) ==> result[len(b) + 4 + j] == v[j])
+//@   content-ensures forall(i, 0 <= i && i < len(b) ==> result[i] == old(b[i]))
+//@   ensures samearray(result, b) || fresh(result)
+//@   modifies bytesof b
 
 // ---------------------------------------------------------------------------
 // C05: client-side composites (client.go, match.go). The server half of C05 is the path discipline asserted in
@@ -1953,3 +1965,9 @@ package sftp
 //@   results matched, err
 //@   ensures err == nil || err == path.ErrBadPattern
 //@   modifies nothing
+
+//@ func fileStatFromInfo
+//@   property C06, C17
+//@   results flags, fs
+//@   requires fi != nil
+//@   ensures fs != nil
